@@ -51,8 +51,17 @@ func genC14(tier string, seed uint64, idx int) *simkit.Plan {
 	for i := 0; i < nDel; i++ {
 		p.Add(simkit.St("del", rng.Uint64(), "i", i))
 	}
+	if replicas > 1 && rng.Chance(1, 3) {
+		// replicas whose garbage differs: a delete that reached one replica only (as after a partially failed delete)
+		for i, n := 0, rng.Range(1, nBlobs); i < n; i++ {
+			p.Add(simkit.St("del1", rng.Uint64(), "i", rng.Intn(nBlobs), "replica", rng.Intn(replicas)))
+		}
+	}
 	if rng.Chance(1, 6) {
 		p.Add(simkit.St("readonly", rng.Uint64(), "replica", rng.Intn(replicas)))
+	}
+	if replicas > 1 && rng.Chance(1, 6) {
+		p.Add(simkit.St("down", rng.Uint64(), "replica", rng.Intn(replicas)))
 	}
 	// verdict table for the round
 	round := simkit.St("vacuum", rng.Uint64())
@@ -83,9 +92,10 @@ func genC14(tier string, seed uint64, idx int) *simkit.Plan {
 }
 
 type c14blob struct {
-	fid     string
-	data    []byte
-	deleted bool
+	fid      string
+	data     []byte
+	deleted  bool
+	diverged bool // deleted on one replica only by the plan: replicas legitimately differ on it
 }
 
 func execC14(r *simkit.Run) {
@@ -112,6 +122,7 @@ func execC14(r *simkit.Run) {
 	masterFn := func() string { return m.Addr }
 	var blobs []*c14blob
 	var vid needle.VolumeId
+	downed := map[int]bool{}
 	put := func(st *simkit.Step) (ok bool) {
 		ar, err := operation.Assign(masterFn, grpc.WithInsecure(), &operation.VolumeAssignRequest{Count: 1, Replication: rp})
 		if err != nil {
@@ -162,6 +173,28 @@ func execC14(r *simkit.Run) {
 					r.Log("delete %s failed: %v", blobs[i].fid, err)
 				}
 			}
+		case "del1":
+			// delete on one replica only (type=replicate is what a primary sends to its replicas)
+			i, rep := int(st.Int("i")), int(st.Int("replica"))%len(vss)
+			if i < len(blobs) && !downed[rep] {
+				err := util.Delete("http://"+vss[rep].Addr()+"/"+blobs[i].fid+"?type=replicate", "")
+				r.Log("delete %s on replica %d only: err=%v", blobs[i].fid, rep, err)
+				r.Abs("del1")
+				r.Fault("replicas-with-different-garbage")
+				blobs[i].diverged = true
+			}
+		case "down":
+			rep := int(st.Int("replica")) % len(vss)
+			if !downed[rep] {
+				downed[rep] = true
+				vss[rep].S.StopHeartbeat()
+				n.SetDown(vss[rep].Host, true)
+				time.Sleep(12 * time.Second) // the master notices the end of the heartbeat stream
+				simkit.Wait()
+				r.Log("volume server %d is down", rep)
+				r.Abs("down")
+				r.Fault("replica-server-down")
+			}
 		case "readonly":
 			rep := int(st.Int("replica")) % len(vss)
 			if vid != 0 {
@@ -187,14 +220,21 @@ func execC14(r *simkit.Run) {
 			return
 		}
 	}
-	c14compare(r, vss, blobs, "end")
+	c14compare(r, vss, blobs, downed, "end")
 }
 
-func c14compare(r *simkit.Run, vss []*VS, blobs []*c14blob, when string) {
+func c14compare(r *simkit.Run, vss []*VS, blobs []*c14blob, downed map[int]bool, when string) {
 	// (ii) replicas hold equal live content: read every key from every replica
 	for _, b := range blobs {
+		if b.diverged {
+			continue
+		}
 		var firstDesc string
+		first := true
 		for i, v := range vss {
+			if downed[i] {
+				continue
+			}
 			data, _, err := util.Get("http://" + v.Addr() + "/" + b.fid)
 			desc := ""
 			switch {
@@ -203,8 +243,8 @@ func c14compare(r *simkit.Run, vss []*VS, blobs []*c14blob, when string) {
 			default:
 				desc = fmt.Sprintf("ok:%d:%x", len(data), simkit.HashString(string(data)))
 			}
-			if i == 0 {
-				firstDesc = desc
+			if first {
+				firstDesc, first = desc, false
 			} else if desc != firstDesc {
 				r.Violate("replicas-differ", "after-vacuum-round", "%s: %s reads as %s on %s but %s on %s", when, b.fid, firstDesc, vss[0].Addr(), desc, v.Addr())
 				return
